@@ -49,5 +49,32 @@ Definition recomputes (factor_worker : nat -> lname -> nat) (stage_layers : nat 
 
 (* collectives of the two operations (kind, on the world): identical on every rank *)
 Definition save_comm (dir_mode : bool) : list nat :=
-  if dir_mode then [6] (* barrier *) else [7; 5; 6] (* new_group, all_gather_object, barrier *).
+  if dir_mode then [6; 6] (* barrier, [write own layer files], barrier *) else [7; 5; 6] (* new_group, all_gather_object, barrier *).
+
+(* ---- directory mode as a small concurrent program per rank:
+        0 --barrier--> 1 --write my layer files--> 2 --barrier (closing = true)--> 3 = state_dict() has returned.
+   A barrier lets a rank through only when every rank has reached it.  closing = false is the code before the repair of D14
+   (no barrier after the files are written). ---- *)
+Definition dpcs := list nat.                       (* program counter of every rank *)
+Definition all_reached (k : nat) (s : dpcs) : bool := forallb (fun pc => Nat.leb k pc) s.
+Definition dstep_ok (closing : bool) (s : dpcs) (r : nat) : bool :=
+  match nth_error s r with
+  | Some 0 => all_reached 0 s
+  | Some 1 => true
+  | Some 2 => if closing then all_reached 2 s else true
+  | _ => false
+  end.
+Fixpoint bump (s : dpcs) (r : nat) : dpcs :=
+  match s, r with
+  | [], _ => []
+  | pc :: t, 0 => S pc :: t
+  | pc :: t, S r' => pc :: bump t r'
+  end.
+(* run a schedule (the rank that moves at each step); a disabled move is skipped *)
+Fixpoint drun (closing : bool) (s : dpcs) (sched : list nat) : dpcs :=
+  match sched with
+  | [] => s
+  | r :: t => drun closing (if dstep_ok closing s r then bump s r else s) t
+  end.
+Definition dinit (n : nat) : dpcs := repeat 0 n.
 Definition load_comm (dir_mode : bool) : list nat := if dir_mode then [] else [6].
